@@ -851,5 +851,5 @@ func TestC08(t *testing.T) {
 	runLane(s, Lane[c08Case]{Name: "states", Journal: true, Quick: 40000, Thor: 3000000, Gen: c08Gen, Run: c08Run})
 	n1, n2, n3, n4 := c08EnumSizes()
 	runEnum(s, EnumLane[c08Case]{Name: "enum3", Journal: true, N: n1 + n2 + n3, Head: n1 + n2, At: c08EnumAt, Run: c08Run, QuickStride: 23, ThorStride: 1})
-	runEnum(s, EnumLane[c08Case]{Name: "enum4", Journal: true, N: n4, At: func(i int) c08Case { return c08EnumAt(n1 + n2 + n3 + i) }, Run: c08Run, QuickStride: -1, ThorStride: 4})
+	runEnum(s, EnumLane[c08Case]{Name: "enum4", Journal: true, N: n4, At: func(i int) c08Case { return c08EnumAt(n1 + n2 + n3 + i) }, Run: c08Run, QuickStride: -1, ThorStride: 16})
 }
